@@ -14,6 +14,8 @@ UNDECIDED_PAT = re.compile(r"rlimit|resource limit|timed? ?out|could not|unsuppo
 
 class UnitResult:
     def __init__(self, unit):
+        self.hint_spans = []
+        self.dropped_hints = 0
         self.unit = unit
         self.status = "ok"  # ok | failed | undecided
         self.reason = ""
@@ -55,7 +57,7 @@ def scan_trusted(ex):
     return found
 
 
-def run_unit(unit, repo=None, rlimit=30, extra_args=None, variant=None, mutate=None, timeout=900):
+def _run_unit_once(unit, repo=None, rlimit=30, extra_args=None, variant=None, mutate=None, timeout=900):
     """variant: None (normal) | 'vacuity' (append `ensures false` to every
     contract)"""
     res = UnitResult(unit)
@@ -198,6 +200,16 @@ def run_unit(unit, repo=None, rlimit=30, extra_args=None, variant=None, mutate=N
         if any(org(l).get("kind") == "canary" for l, _, _ in sl):
             canary_failed = True
             continue
+        # a failed *proof hint* (an `assert(..)` woven from the template into a fn body, not a clause of the contract, not a
+        # loop invariant, not an assert! of the repository): remember its span; run_unit() re-verifies without it
+        if msg.strip() == "assertion failed":
+            for sp0 in spans:
+                sp = _callsite(sp0)
+                if sp is None or not sp.get("is_primary"):
+                    continue
+                o = org(sp.get("line_start"))
+                if o.get("kind") == "contract" and o.get("where") == "proof":
+                    res.hint_spans.append((sp["line_start"], sp["column_start"], sp["line_end"], sp["column_end"]))
         if UNDECIDED_PAT.search(msg) and "precondition" not in msg and "postcondition" not in msg:
             res.status = "undecided"
             res.reason = "verifier gave up: %s" % msg
@@ -263,4 +275,42 @@ def run_unit(unit, repo=None, rlimit=30, extra_args=None, variant=None, mutate=N
             res.status = "undecided"
             res.reason = "verus verified zero functions"
         res.missing_in_breakdown = missing
+    return res, ex
+
+
+def run_unit(unit, repo=None, rlimit=30, extra_args=None, variant=None, mutate=None, timeout=900):
+    """Verify a unit.  When the only thing Verus rejects inside a function are *proof hints* woven from the template
+    (auxiliary `assert`s that help the solver), the verdict on the contract is still open: Verus assumes a failed
+    assertion and goes on, so the clauses after it were checked under a false fact.  The unit is therefore verified
+    again with exactly those hints neutralised (`assert(true || (..))`): a hint that merely became unnecessary or
+    stale after a harmless edit then costs nothing, and a semantic change is reported against the clause of the contract
+    that really fails instead of against the hint."""
+    res, ex = _run_unit_once(unit, repo, rlimit, extra_args, variant, mutate, timeout)
+    dropped = []
+    for _round in range(4):
+        if res.status != "failed" or not res.hint_spans:
+            break
+        spans = sorted(set(res.hint_spans) | set(dropped), reverse=True)
+
+        def mut(txt, spans=spans):
+            if mutate:
+                txt = mutate(txt)
+            ls = txt.split("\n")
+            for (l1, c1, l2, c2) in spans:
+                if l1 != l2:
+                    # multi-line expression: wrap from (l1,c1) to (l2,c2)
+                    ls[l2 - 1] = ls[l2 - 1][:c2 - 1] + "))" + ls[l2 - 1][c2 - 1:]
+                    ls[l1 - 1] = ls[l1 - 1][:c1 - 1] + "(true || (" + ls[l1 - 1][c1 - 1:]
+                else:
+                    t = ls[l1 - 1]
+                    ls[l1 - 1] = t[:c1 - 1] + "(true || (" + t[c1 - 1:c2 - 1] + "))" + t[c2 - 1:]
+            return "\n".join(ls)
+
+        res2, ex2 = _run_unit_once(unit, repo, rlimit, extra_args, (variant + "_nohint") if variant else "nohint", mut, timeout)
+        if res2.status == "undecided":
+            break   # keep the first verdict
+        dropped = spans
+        res2.dropped_hints = len(spans)
+        res2.wall_s = (res.wall_s or 0) + (res2.wall_s or 0)
+        res, ex = res2, ex2
     return res, ex
